@@ -11,8 +11,11 @@ def worker(args):
     out = []
     for s in seeds:
         try:
-            rec = getattr(RC, gen)(s, n_events, workdir=os.path.join(WORK, 'w%d' % s))
+            from harness.raft_monitor import Monitor
+            mon = Monitor()
+            rec = getattr(RC, gen)(s, n_events, workdir=os.path.join(WORK, 'w%d' % s), listeners=[mon])
             d, c = RC.v_case('t%d' % s, rec.cfg, rec.mevents, rec.digests)
+            rec.kinds['MON'] = mon.records[:3]
             out.append((s, d, c, rec.kinds, None))
         except Exception:
             import traceback
@@ -53,6 +56,9 @@ def main(first, n, n_events, gen='random_trace'):
                 bad.append((s, v))
     kinds = {}
     for r in good:
+        mon = r[3].pop('MON', [])
+        if mon:
+            print('MONITOR seed', r[0], mon)
         for k, v in r[3].items():
             kinds[k] = kinds.get(k, 0) + v
     print('traces', len(good), 'crashed', len(crashed), 'kinds', kinds)
